@@ -301,6 +301,11 @@ func (r *regulator) allocateTables() error {
 		// Calculate water level with players in the waiting queue
 		expectedTables := requiredTables - r.tableCount
 		waterLevel = int(math.Floor(float64(len(r.waitingQueue)) / float64(expectedTables)))
+
+		// Never seat more than the maximum at one table
+		if waterLevel > r.maxPlayersPerTable {
+			waterLevel = r.maxPlayersPerTable
+		}
 	}
 
 	return nil
